@@ -456,7 +456,11 @@ func (s *FileSequence) SetPadding(padChars string) {
 // Set a new padding style for mapping between characters and
 // their numeric width
 func (s *FileSequence) SetPaddingStyle(style PadStyle) {
-	s.padMapper = padders[style]
+	padder, ok := padders[style]
+	if !ok {
+		padder = defaultPadding
+	}
+	s.padMapper = padder
 	s.SetPadding(s.padMapper.PaddingChars(s.ZFill()))
 }
 
